@@ -10,6 +10,9 @@ TYPES = r"""
 #include <memory_resource>
 #include <new>
 namespace multi = boost::multi;
+#ifdef TRACKED_TRIVIAL
+using Tracked = int;
+#else
 struct Tracked {
 	int v;
 	Tracked() noexcept(false);
@@ -21,6 +24,7 @@ struct Tracked {
 	bool operator==(Tracked const&) const;
 	bool operator<(Tracked const&) const;
 };
+#endif
 template<class T, bool POCCA = false, bool POCMA = false, bool POCS = false, bool AE = false>
 struct ObsAlloc {
 	using value_type = T;
@@ -36,6 +40,8 @@ struct ObsAlloc {
 	ObsAlloc& operator=(ObsAlloc const&) noexcept;
 	T* allocate(std::size_t n);
 	void deallocate(T* p, std::size_t n) noexcept;
+	template<class U, class... As> void construct(U* p, As&&... as);
+	template<class U> void destroy(U* p) noexcept;
 	ObsAlloc select_on_container_copy_construction() const;
 	template<class U> struct rebind { using other = ObsAlloc<U, POCCA, POCMA, POCS, AE>; };
 	friend bool operator==(ObsAlloc const&, ObsAlloc const&) noexcept;
@@ -110,7 +116,7 @@ def ops(D):
 
 
 def gen_driver(path, D, alloc="ObsAlloc<Tracked>", defines=""):
-    lines = [TYPES, defines,
+    lines = [defines, TYPES,
              "constexpr multi::dimensionality_type DD = %d;" % D,
              "using A = %s;" % alloc,
              "using Arr = multi::array<Tracked, DD, A>; using SArr = multi::static_array<Tracked, DD, A>;",
@@ -119,6 +125,21 @@ def gen_driver(path, D, alloc="ObsAlloc<Tracked>", defines=""):
              "static_assert(sizeof(multi::array<Tracked, DD>) > 0 && sizeof(Arr) > 0 && sizeof(SArr) > 0 && sizeof(Ref) > 0 && sizeof(Sub) > 0 && sizeof(CSub) > 0, \"\");"]
     for op in ops(D):
         lines.append('extern "C" void d_%s(%s) { %s }' % (op["name"], op["params"], op["body"]))
+    # direct instantiation of every construct-in-a-loop helper (R09.rollback instances)
+    lines.append("""
+#ifndef TRACKED_TRIVIAL
+extern "C" void d_prim_helpers(A& al, Tracked* first, Tracked* dest, long n, Tracked const& v) {
+	multi::xtd::alloc_uninitialized_value_construct_n(al, dest, n);
+	multi::xtd::alloc_uninitialized_default_construct_n(al, dest, n);
+	multi::xtd::alloc_uninitialized_copy_n(al, first, n, dest);
+	multi::xtd::alloc_uninitialized_move_n(al, first, n, dest);
+	multi::xtd::alloc_uninitialized_fill_n(al, dest, n, v);
+	multi::uninitialized_move_n(al, first, n, dest);
+	multi::uninitialized_default_construct_n(al, dest, n);
+	multi::uninitialized_value_construct_n(al, dest, n);
+}
+#endif
+""")
     with open(path, "w") as fh:
         fh.write("\n".join(lines) + "\n")
 
@@ -134,14 +155,14 @@ class Module:
         self.mod = ir0.parse(text)
         ir0.demangle_all(self.mod)
         recs = layouts.parse(layouts.dump(self.src, defines=defines))
-        self.offs = layouts.owning_offsets(recs, r"^boost::multi::(static_array|array|array_ref|subarray|const_subarray)<Tracked, %d[,>]" % D)
+        self.offs = layouts.owning_offsets(recs, r"^boost::multi::(static_array|array|array_ref|subarray|const_subarray)<(?:Tracked|int), %d[,>]" % D)
         self.interp = absint.Interp(self.mod)
         self.ops = {o["name"]: o for o in ops(D)}
 
     def offsets_for(self, ptype):
         """record offsets for a driver parameter type name (Arr, SArr, Ref, Sub, CSub)"""
-        pat = {"Arr": r"^boost::multi::array<Tracked", "SArr": r"^boost::multi::static_array<Tracked", "Ref": r"^boost::multi::array_ref<Tracked",
-               "Sub": r"^boost::multi::subarray<Tracked", "CSub": r"^boost::multi::const_subarray<Tracked"}[ptype]
+        pat = {"Arr": r"^boost::multi::array<(Tracked|int)", "SArr": r"^boost::multi::static_array<(Tracked|int)", "Ref": r"^boost::multi::array_ref<(Tracked|int)",
+               "Sub": r"^boost::multi::subarray<(Tracked|int)", "CSub": r"^boost::multi::const_subarray<(Tracked|int)"}[ptype]
         for n, o in self.offs.items():
             if re.search(pat, n) and o["base"] is not None:
                 if ptype in ("Arr", "SArr") and "ObsAlloc" not in n and "polymorphic" not in n and self.alloc.split("<")[0] not in n:
@@ -190,7 +211,7 @@ class Module:
             if ty == "OtherArr":
                 offs = None
                 for n, o in self.offs.items():
-                    if re.search(r"^boost::multi::array<Tracked, \d+(, std::allocator<Tracked>)?>$", n):
+                    if re.search(r"^boost::multi::array<(Tracked|int), \d+(, std::allocator<(Tracked|int)>)?>$", n):
                         offs = o
                 if offs is None:
                     raise common.AnalysisBroken("no layout for std::allocator array")
@@ -268,5 +289,5 @@ def analyse_op(module, opname):
             for o in sim.objs.values():
                 o.layout = ("empty",)      # destroyed object owns nothing afterwards
         f = sim.finish("unwind" if kind == "unwind" else "terminate" if kind == "terminate" else "ret")
-        res.append(dict(outcome=kind, findings=list(f), log=list(sim.log), thrower=thrower, events=path.events, pc=path.pc))
+        res.append(dict(outcome=kind, findings=list(f), log=list(sim.log), thrower=thrower, events=path.events, pc=path.pc, sim=sim))
     return res
